@@ -128,7 +128,7 @@ def sparse_dense(seed, shape, tok, var="g"):
 
 SCALARS = {
     "two": 2, "m3": -3, "zero": 0, "half": 0.5, "cj": 1 + 2j, "f2": 2.0, "one": 1, "m1": -1,
-    "np32": np.float32(2), "npi3": np.int64(3), "arr2": np.array(2.), "arrcj": np.array(1 + 2j),
+    "np32": np.float32(2), "npi3": np.int64(3), "np64": np.float64(2.5), "npc128": np.complex128(0.5 + 2j), "arr2": np.array(2.), "arrcj": np.array(1 + 2j),
     "i": 1j, "mi": -1j, "d2": 2, "dm4": -4, "dhalf": 0.5, "four": 4, "quarter": 0.25,
 }
 
